@@ -86,6 +86,25 @@ func c11(x *runCtx) {
 			corpus = append(corpus, gen.Item{K: gen.Nint, N: b})
 		}
 	}
+	// breadth: many containers side by side (nesting depth 2 or 3, far below the limit of 64, which counts
+	// what is open at one time, not what was ever opened), also behind a tag, whose content goes through
+	// the raw decoder
+	for _, k := range []int{63, 64, 65, 100, 300} {
+		empties := func(kind gen.Kind) gen.Item {
+			it := gen.Item{K: gen.Arr}
+			for j := 0; j < k; j++ {
+				it.Xs = append(it.Xs, gen.Item{K: kind})
+			}
+			return it
+		}
+		wideArr, wideMap := empties(gen.Arr), empties(gen.Map)
+		pairs := gen.Item{K: gen.Arr}
+		for j := 0; j < k; j++ {
+			pairs.Xs = append(pairs.Xs, gen.Item{K: gen.Arr, Xs: []gen.Item{{K: gen.Arr}, {K: gen.Map}}})
+		}
+		corpus = append(corpus, wideArr, wideMap, pairs,
+			gen.Item{K: gen.Tag, N: 1, Xs: []gen.Item{wideArr}}, gen.Item{K: gen.Tag, N: 7, Xs: []gen.Item{pairs}})
+	}
 	for i := 0; i < n+len(corpus); i++ {
 		var it gen.Item
 		if i < len(corpus) {
